@@ -81,6 +81,14 @@ inductive Op where
   | putObjectTagging (b k : Bytes) (tags : KVs)
   | getObjectTagging (b k : Bytes)
   | deleteObjectTagging (b k : Bytes)
+  | listVersions (b : Bytes)
+  -- object lock
+  | putLockConfig (b : Bytes) (enabled : Bool) (defMode : Option LockMode) (defDays : Nat)
+  | getLockConfig (b : Bytes)
+  | putRetention (b k vid : Bytes) (r : Retention) (bypass : Bool)
+  | getRetention (b k vid : Bytes)
+  | putLegalHold (b k vid : Bytes) (on : Bool)
+  | getLegalHold (b k vid : Bytes)
   deriving Repr, DecidableEq
 
 structure Req where
@@ -170,16 +178,70 @@ def currentVer (vs : List Ver) : Option Ver :=
   | v :: _ => if v.marker then none else some v
   | [] => none
 
-def verFields (v : Ver) (withBody : Bool) : List (String × String) :=
+def nullVid : Bytes := Bytes.ofString "null"
+
+/-- how a version id is written on the wire: the null version of a bucket that has (had)
+versioning reads "null" -/
+def wireVid (v : Bytes) : Bytes := if v.isEmpty then nullVid else v
+
+/-- request-side version id → internal ("null" names the null version) -/
+def reqVid (v : Bytes) : Bytes := if v == nullVid then [] else v
+
+def findVer (vs : List Ver) (vid : Bytes) : Option Ver := vs.find? (·.vid == reqVid vid)
+
+def actBypass := Bytes.ofString "s3:BypassGovernanceRetention"
+
+/-- is this version protected against the caller at time `now`? (auth.CheckObjectAccess for one
+version) -/
+def verLocked (b : Bucket) (w : Who) (now : Int) (bypass : Bool) (k : Bytes) (v : Ver) : Bool :=
+  let bypassOk := bypass && (match b.policy with
+    | some p => policyAllows p w.access actBypass (resourceOf b.name k)
+    | none => false)
+  let retentionLocks := match v.retention with
+    | some r => decide (now < r.untilT) && (match r.mode with
+        | .compliance => true
+        | .governance => !bypassOk)
+    | none => false
+  retentionLocks || v.hold
+
+/-- bucket default retention window (the gateway applies it from the moment the configuration
+was stored, to every object of the bucket) -/
+def defaultLocks (b : Bucket) (w : Who) (now : Int) (bypass : Bool) (k : Bytes) : Bool :=
+  match b.lock with
+  | some cfg =>
+    match cfg.defMode with
+    | some m =>
+      decide (now < cfg.createdAt + (cfg.defDays : Int) * 86400) &&
+        (match m with
+         | .compliance => true
+         | .governance => !(bypass && (match b.policy with
+             | some p => policyAllows p w.access actBypass (resourceOf b.name k)
+             | none => false)))
+    | none => false
+  | none => false
+
+/-- auth.CheckObjectAccess for the version addressed by (k, vid) ("" = current) -/
+def lockCheck (b : Bucket) (w : Who) (now : Int) (bypass : Bool) (k vid : Bytes) : Option String :=
+  match b.lock with
+  | none => none
+  | some cfg =>
+    if !cfg.enabled then none else
+    let target := if vid.isEmpty then (b.versions k).head? else findVer (b.versions k) vid
+    match target with
+    | none => none
+    | some v => if verLocked b w now bypass k v || defaultLocks b w now bypass k then some "AccessDenied" else none
+
+def verFields (reqV : Bytes) (v : Ver) (withBody : Bool) : List (String × String) :=
   (if withBody then [("body", showData v.data)] else []) ++
   [("size", toString v.data.size), ("etag", hx v.etag),
    ("ctype", hx (if v.ctype.isEmpty then Bytes.ofString "binary/octet-stream" else v.ctype)), ("meta", showKVs v.umeta),
    ("hdrs", showKVs v.hdrs)] ++
-  (if withBody then [("tagcount", toString (v.tags.getD []).length)] else []) ++ [("vid", hx v.vid)]
+  (if withBody then [("tagcount", toString (v.tags.getD []).length)] else []) ++
+  [("vid", hx (if reqV.isEmpty then v.vid else wireVid v.vid))]
 
 def mkVer (p : PutSpec) (vid : Bytes) : Ver :=
   { vid := vid, data := p.data.norm, etag := p.etag, ctype := p.ctype, umeta := p.umeta, hdrs := p.hdrs, tags := p.tags,
-    hold := p.hold, retention := p.retention }
+    hold := p.hold, holdSet := p.hold, retention := p.retention }
 
 /-- posix.PutObject on the version stack of one key -/
 def putVersions (cfg : Cfg) (b : Bucket) (vs : List Ver) (p : PutSpec) (newVid : Bytes) : List Ver × Bytes :=
@@ -188,6 +250,56 @@ def putVersions (cfg : Cfg) (b : Bucket) (vs : List Ver) (p : PutSpec) (newVid :
   else ([mkVer p []], [])
 
 def evt (name : String) (b k : Bytes) : String := s!"{name} {hx b} {hx k}"
+
+/-- posix.DeleteObject on one key; returns the new bucket and the answer (`deletemarker`, `vid`) -/
+def deleteOne (cfg : Cfg) (bk : Bucket) (k vid newVid : Bytes) : Bucket × Resp :=
+  let vs := bk.versions k
+  if cfg.versioning && bk.versioning != .unset && !isDirKey k then
+    if vid.isEmpty then
+      if vs.isEmpty then (bk, okR [("deletemarker", "false"), ("vid", hx [])])
+      else if bk.versioning == .enabled then
+        (bk.setVersions k ({ vid := newVid, marker := true } :: vs), okR [("deletemarker", "true"), ("vid", hx newVid)])
+      else
+        -- suspended: the current version becomes the null delete marker; a current null version is
+        -- replaced by it, a current version with an id is archived first (an archived null
+        -- version, if any, is left where it is: suspended-state details are not pinned by C09)
+        (bk.setVersions k ({ vid := [], marker := true } :: (match vs with
+            | v :: rest => if v.vid.isEmpty then rest else v :: rest
+            | [] => [])),
+         okR [("deletemarker", "true"), ("vid", hx nullVid)])
+    else
+      match findVer vs vid with
+      | none => (bk, errR "InvalidArgument")
+      | some v => (bk.setVersions k (vs.filter (·.vid != v.vid)), okR [("deletemarker", toString v.marker), ("vid", hx vid)])
+  else
+    (bk.setVersions k [], okR [("deletemarker", "false"), ("vid", hx [])])
+
+def actListVersions := Bytes.ofString "s3:ListBucketVersions"
+def actPutLockCfg := Bytes.ofString "s3:PutBucketObjectLockConfiguration"
+def actGetLockCfg := Bytes.ofString "s3:GetBucketObjectLockConfiguration"
+def actPutRetention := Bytes.ofString "s3:PutObjectRetention"
+def actGetRetention := Bytes.ofString "s3:GetObjectRetention"
+def actPutLegalHold := Bytes.ofString "s3:PutObjectLegalHold"
+def actGetLegalHold := Bytes.ofString "s3:GetObjectLegalHold"
+
+/-- common prologue of the per-version lock operations (posix Put/GetObjectRetention/LegalHold):
+the object must exist, the bucket must have object lock enabled, the version must exist.
+The continuation gets the version, the versions after it and the versions before it. -/
+def withLockedVersion (cfg : Cfg) (s : State) (bk : Bucket) (k vid : Bytes)
+    (f : Ver → List Ver → List Ver → State × Resp) : State × Resp :=
+  let vs := bk.versions k
+  if vs.isEmpty then (s, errR "NoSuchKey") else
+  if !((bk.lock.map (·.enabled)).getD false) then (s, errR "InvalidBucketObjectLockConfiguration") else
+  if vid.isEmpty then
+    match vs with
+    | v :: rest => f v rest []
+    | [] => (s, errR "NoSuchKey")
+  else if !cfg.versioning then (s, errR "InvalidArgument")
+  else
+    let pre := vs.takeWhile (·.vid != reqVid vid)
+    match vs.dropWhile (·.vid != reqVid vid) with
+    | v :: rest => f v rest pre
+    | [] => (s, errR "InvalidArgument")
 
 /-! ### the step function -/
 
@@ -270,27 +382,49 @@ def handle (cfg : Cfg) (s : State) (w : Who) (now : Int) : Op → State × Resp
     (s, okR [("status", match bk.versioning with | .unset => "" | .enabled => "Enabled" | .suspended => "Suspended")])
   | .putObject b k p newVid => withBucket s b fun bk =>
     guarded (verifyAccess cfg bk w .write actPutObject k) s fun _ =>
+    guarded (lockCheck bk w now true k []) s fun _ =>
     let (vs, vid) := putVersions cfg bk (bk.versions k) p newVid
     (setBucket s (bk.setVersions k vs), okR [("etag", hx p.etag), ("vid", hx vid)] [evt "s3:ObjectCreated:Put" b k])
   | .getObject b k vid => withBucket s b fun bk =>
     guarded (verifyAccess cfg bk w .read (if vid.isEmpty then actGetObject else actGetObjectVersion) k) s fun _ =>
-    match currentVer (bk.versions k) with
-    | none => (s, errR "NoSuchKey")
-    | some v => (s, okR (verFields v true))
-  | .headObject b k _vid => withBucket s b fun bk =>
+    if vid.isEmpty then
+      match currentVer (bk.versions k) with
+      | none => (s, errR "NoSuchKey")
+      | some v => (s, okR (verFields vid v true))
+    else if !cfg.versioning then (s, errR "InvalidArgument")
+    else if (bk.versions k).isEmpty then (s, errR "NoSuchKey")
+    else match findVer (bk.versions k) vid with
+      | none => (s, errR "InvalidArgument")
+      | some v => if v.marker then (s, errR "MethodNotAllowed") else (s, okR (verFields vid v true))
+  | .headObject b k vid => withBucket s b fun bk =>
     guarded (verifyAccess cfg bk w .read actGetObject k) s fun _ =>
-    match currentVer (bk.versions k) with
-    | none => (s, errR "NotFound")
-    | some v => (s, okR (verFields v false))
-  | .deleteObject b k _vid _bypass _newVid => withBucket s b fun bk =>
+    if vid.isEmpty then
+      match currentVer (bk.versions k) with
+      | none => (s, errR "NotFound")
+      | some v => (s, okR (verFields vid v false))
+    else if !cfg.versioning then (s, errR "InvalidArgument")
+    else if (bk.versions k).isEmpty then (s, errR "NotFound")
+    else match findVer (bk.versions k) vid with
+      | none => (s, errR "InvalidArgument")
+      | some v => if v.marker then (s, errR "MethodNotAllowed") else (s, okR (verFields vid v false))
+  | .deleteObject b k vid bypass newVid => withBucket s b fun bk =>
     guarded (verifyAccess cfg bk w .write actDeleteObject k) s fun _ =>
-    (setBucket s (bk.setVersions k []), okR [] [evt "s3:ObjectRemoved:Delete" b k])
-  | .deleteObjects b keys _bypass _newVids => withBucket s b fun bk =>
+    guarded (lockCheck bk w now bypass k vid) s fun _ =>
+    let (bk', r) := deleteOne cfg bk k vid newVid
+    (setBucket s bk', { r with events := if r.code == "" then [evt "s3:ObjectRemoved:Delete" b k] else [] })
+  | .deleteObjects b keys bypass newVids => withBucket s b fun bk =>
     -- the access decision is taken for every key of the batch (bucket-level when the list is empty)
     guarded ((if keys.isEmpty then [[]] else keys.map (·.1)).findSome? fun k => verifyAccess cfg bk w .write actDeleteObject k) s fun _ =>
-    let bk' := keys.foldl (fun acc (k, _) => acc.setVersions k []) bk
-    (setBucket s bk', okR [("deleted", ",".intercalate (keys.map (hx ·.1)))] [evt "s3:ObjectRemoved:DeleteObjects" b []])
-  | .copyObject sb sk _svid b k replace newVid => withBucket s b fun bk =>
+    guarded (keys.findSome? fun (k, v) => lockCheck bk w now bypass k v) s fun _ =>
+    let (bk', out, _) := keys.foldl (fun (acc : Bucket × List String × List Bytes) (kv : Bytes × Bytes) =>
+        let (cur, out, vids) := acc
+        let nv := vids.head?.getD []
+        let (cur', r) := deleteOne cfg cur kv.1 kv.2 nv
+        let usedMarker := r.fields.any (fun f => f.1 == "deletemarker" && f.2 == "true") && kv.2.isEmpty
+        (cur', out ++ [if r.code == "" then hx kv.1 else hx kv.1 ++ "!" ++ r.code], if usedMarker then vids.drop 1 else vids))
+      (bk, [], newVids)
+    (setBucket s bk', okR [("deleted", ",".intercalate out)] [evt "s3:ObjectRemoved:DeleteObjects" b []])
+  | .copyObject sb sk svid b k replace newVid => withBucket s b fun bk =>
     -- VerifyObjectCopyAccess: read-only refusal, root/admin shortcut, then destination, then source
     let chk : Option String :=
       if cfg.readonly then some "AccessDenied" else
@@ -305,10 +439,21 @@ def handle (cfg : Cfg) (s : State) (w : Who) (now : Int) : Op → State × Resp
     match findBucket s sb with
     | none => (s, errR "NoSuchBucket")
     | some sbk =>
-      match currentVer (sbk.versions sk) with
-      | none => (s, errR "NoSuchKey")
-      | some src =>
-        if sb == b && sk == k && replace.isNone then (s, errR "InvalidRequest") else
+      let srcVer : Except String Ver :=
+        if svid.isEmpty then
+          match currentVer (sbk.versions sk) with
+          | none => .error (if (sbk.versions sk).isEmpty && cfg.versioning && sbk.versioning == .enabled then "NoSuchVersion" else "NoSuchKey")
+          | some v => .ok v
+        else if !(cfg.versioning && sbk.versioning == .enabled) then .error "InvalidArgument"
+        else if (sbk.versions sk).isEmpty then .error "NoSuchKey"
+        else match findVer (sbk.versions sk) svid with
+          | none => .error "NoSuchVersion"
+          | some v => if v.marker then .error "NoSuchKey" else .ok v
+      match srcVer with
+      | .error e => (s, errR e)
+      | .ok src =>
+        if sb == b && sk == k && (svid.isEmpty || (sbk.versions sk).head?.map (·.vid) == some (reqVid svid)) && replace.isNone then (s, errR "InvalidRequest") else
+        guarded (lockCheck bk w now true k []) s fun _ =>
         let spec : PutSpec := match replace with
           | some r => { r with data := src.data, etag := src.etag, tags := if r.tags.isSome then r.tags else src.tags }
           | none => { data := src.data, etag := src.etag, ctype := src.ctype, umeta := src.umeta, hdrs := src.hdrs, tags := src.tags }
@@ -332,6 +477,50 @@ def handle (cfg : Cfg) (s : State) (w : Who) (now : Int) : Op → State × Resp
     match bk.versions k with
     | v :: rest => (setBucket s (bk.setVersions k ({ v with tags := none } :: rest)), okR [] [evt "s3:ObjectTagging:Delete" b k])
     | [] => (s, errR "NoSuchKey")
+  | .listVersions b => withBucket s b fun bk =>
+    guarded (verifyAccess cfg bk w .read actListVersions []) s fun _ =>
+    (s, okR [("versions", ",".intercalate (bk.objects.flatMap fun (k, vs) =>
+      (vs.zipIdx.map fun (v, i) => s!"{hx k}:{hx (wireVid v.vid)}:{if i == 0 then "L" else "-"}:{if v.marker then "M" else "V"}:{if v.marker then "-" else hx v.etag}:{if v.marker then 0 else v.data.size}")))])
+  | .putLockConfig b enabled defMode defDays => withBucket s b fun bk =>
+    guarded (verifyAccess cfg bk w .write actPutLockCfg []) s fun _ =>
+    if !enabled then (s, errR "MalformedXML") else
+    match bk.lock with
+    | none => (s, errR "InvalidBucketState")
+    | some old =>
+      if !old.enabled then (s, errR "InvalidBucketState") else
+      (setBucket s { bk with lock := some { enabled := true, defMode := defMode, defDays := defDays, createdAt := now } }, okR)
+  | .getLockConfig b => withBucket s b fun bk =>
+    guarded (verifyAccess cfg bk w .read actGetLockCfg []) s fun _ =>
+    match bk.lock with
+    | none => (s, errR "ObjectLockConfigurationNotFoundError")
+    | some c => (s, okR [("enabled", toString c.enabled), ("mode", match c.defMode with | none => "-" | some .governance => "GOVERNANCE" | some .compliance => "COMPLIANCE"),
+                         ("days", toString c.defDays)])
+  | .putRetention b k vid r bypass => withBucket s b fun bk =>
+    guarded (verifyAccess cfg bk w .write actPutRetention k) s fun _ =>
+    if decide (r.untilT < now) then (s, errR "InvalidRequest") else
+    withLockedVersion cfg s bk k vid fun v rest pre =>
+      let bypassOk := bypass && (match bk.policy with
+        | some p => policyAllows p w.access actBypass (resourceOf bk.name k)
+        | none => false)
+      match v.retention with
+      | some old =>
+        if old.mode == .compliance || !bypassOk then (s, errR "MethodNotAllowed")
+        else (setBucket s (bk.setVersions k (pre ++ { v with retention := some r } :: rest)), okR)
+      | none => (setBucket s (bk.setVersions k (pre ++ { v with retention := some r } :: rest)), okR)
+  | .getRetention b k vid => withBucket s b fun bk =>
+    guarded (verifyAccess cfg bk w .read actGetRetention k) s fun _ =>
+    withLockedVersion cfg s bk k vid fun v _ _ =>
+      match v.retention with
+      | none => (s, errR "NoSuchObjectLockConfiguration")
+      | some r => (s, okR [("mode", match r.mode with | .governance => "GOVERNANCE" | .compliance => "COMPLIANCE"), ("until", toString r.untilT)])
+  | .putLegalHold b k vid on => withBucket s b fun bk =>
+    guarded (verifyAccess cfg bk w .write actPutLegalHold k) s fun _ =>
+    withLockedVersion cfg s bk k vid fun v rest pre =>
+      (setBucket s (bk.setVersions k (pre ++ { v with hold := on, holdSet := true } :: rest)), okR)
+  | .getLegalHold b k vid => withBucket s b fun bk =>
+    guarded (verifyAccess cfg bk w .read actGetLegalHold k) s fun _ =>
+    withLockedVersion cfg s bk k vid fun v _ _ =>
+      if !v.holdSet then (s, errR "NoSuchObjectLockConfiguration") else (s, okR [("hold", if v.hold then "ON" else "OFF")])
 
 /-- One request: authentication first; a request without a valid SigV4 proof for an existing
 account is refused before anything else happens. -/
